@@ -46,6 +46,7 @@ CHECKS = {
             ("R-NORM.c03", "r_norm", "run_c03", ("quick", "thorough"))],
     "C13": [("R-MPFZERO", "r_mpfzero", "run", ("quick", "thorough")),
             ("R-EXTENT.c13", "r_alias", "run_c13", ("quick", "thorough"))],
+    "C11": [("R-ORDER", "r_order", "run", ("quick", "thorough"))],
     "C12": [("R-SIGN", "r_sign", "run", ("quick", "thorough")),
             ("R-DENONE", "r_sign", "run_den_one", ("quick", "thorough"))],
     "C07": [("R-SIGN.c07", "r_sign", "run_c07", ("quick", "thorough"))],
@@ -100,9 +101,17 @@ RULES = {
     "R-SIGN": ("r_sign", "run"),
     "R-SIGN.c07": ("r_sign", "run_c07"),
     "R-DENONE": ("r_sign", "run_den_one"),
+    "R-ORDER": ("r_order", "run"),
 }
 
 EXPLANATION = {
+    "C11": "Decides the property completely for the nine functions that see an integer only through its size field and lowest limb: "
+           "_mpz_cmp_ui, _mpz_cmp_si (behind mpz_cmp_ui / mpz_cmp_si), mpz_cmpabs_ui and the six mpz_fits_*_p predicates.  The input space is "
+           "cut into the finitely many cells on which the exact answer is constant (size class x sign of the scalar x order of the limb "
+           "against |scalar|, or against the limits of the C type); each function's CFG is executed abstractly on every cell (intervals + "
+           "'is l / is v / is -v' symbols, path-sensitive, loop-free) and every reachable return must have the exact sign / answer: 97 cells, "
+           "all proved.  mpz_cmp, mpz_cmpabs, the _d forms, mpq_cmp*, mpf_cmp*, and every conversion (get_d, set_d, get_si ...) are value "
+           "computations over limb vectors or doubles and are not decided.",
     "C07": "Decides one clause of the statement: the results the manual documents as non-negative are non-negative - g of mpz_gcd and "
            "mpz_gcdext, mpz_lcm, mpz_lcm_ui, and the inverse of mpz_invert on every exit that reports an inverse ('in [0, |m|)').  Same "
            "sign-domain abstract interpretation as C12's R-SIGN (integer operands of any sign, every aliasing of the result with an operand; "
@@ -209,6 +218,10 @@ EXPLANATION = {
 }
 
 ASSUMPTIONS = {
+    "R-ORDER": ["well-formed operands: |n| = 1 implies limb 0 >= 1; the limb of a zero is not part of its value", "LP64 limits of short / int / "
+                "long (the pinned ABI); the exact answers per cell are arithmetic facts computed in Python integers",
+                "integers are evaluated as mathematical integers; a conversion to an unsigned type of a negative value wraps modulo 2^width; "
+                "-LONG_MIN is kept as 2^63 (the code only uses its unsigned image)", "calls are not followed: a predicate rewritten through a helper or with a loop is undecided"],
     "R-DENONE": ["only literal 1 stores into the size of the denominator of a rational the function was given are judged; 'the limbs are written' means "
                  "any store through the denominator's limb pointer (or a local pointer derived from it), or a callee that gets the denominator or its "
                  "limb pointer as a destination - the value stored is not examined"],
